@@ -921,7 +921,9 @@ class Filter:
             LookupError,
             AttributeError,
         ) as err:
-            raise LiquidTypeError(_str(err), token=self.token) from err
+            raise LiquidTypeError(
+                f"{self.name}: {_str(err)}", token=self.token
+            ) from err
         except LiquidTypeError as err:
             err.token = self.token
             raise err
